@@ -1,7 +1,7 @@
 //! Kernels (covariance functions) for Gaussian processes. See the [Kernel
 //! Cookbook](https://www.cs.toronto.edu/~duvenaud/cookbook/) for more details about kernels.
 
-use crate::linalg::{Dot, Matrix, Vector};
+use crate::linalg::{Matrix, Vector};
 
 pub trait Kernel<T, S> {
     fn forward(&self, x: T, y: T) -> S;
@@ -96,11 +96,11 @@ macro_rules! impl_kernel_vec_for_rbf {
     ($t1: ty, $t2: ty) => {
         impl Kernel<$t1, $t2> for RBFKernel {
             fn forward(&self, x: $t1, y: $t1) -> $t2 {
-                let (x, y) = (x.reshape(-1, 1), y.reshape(-1, 1));
-                (-(x.powi(2).reshape(-1, 1) + y.powi(2).reshape(1, -1) - 2. * x.dot_t(y))
-                    / (2. * self.length_scale.powi(2)))
-                .exp()
-                    * self.var
+                // column of x minus row of y: the differences x_i - y_j are formed first (expanding the
+                // square as x^2 + y^2 - 2xy cancels for nearby points far from the origin)
+                let (x, y) = (x.reshape(-1, 1), y.reshape(1, -1));
+                assert!(x.size() > 0 && y.size() > 0, "point sets must not be empty");
+                (-(x - y).powi(2) / (2. * self.length_scale.powi(2))).exp() * self.var
             }
         }
     };
@@ -115,10 +115,11 @@ macro_rules! impl_kernel_vec_for_rq {
     ($t1: ty, $t2: ty) => {
         impl Kernel<$t1, $t2> for RationalQuadraticKernel {
             fn forward(&self, x: $t1, y: $t1) -> $t2 {
-                let (x, y) = (x.reshape(-1, 1), y.reshape(-1, 1));
-                (1. + (x.powi(2).reshape(-1, 1) + y.powi(2).reshape(1, -1) - 2. * x.dot_t(y))
-                    / (2. * self.alpha * self.length_scale.powi(2)))
-                .powf(-self.alpha)
+                // column of x minus row of y, as in the RBF kernel
+                let (x, y) = (x.reshape(-1, 1), y.reshape(1, -1));
+                assert!(x.size() > 0 && y.size() > 0, "point sets must not be empty");
+                (1. + (x - y).powi(2) / (2. * self.alpha * self.length_scale.powi(2)))
+                    .powf(-self.alpha)
                     * self.var
             }
         }
